@@ -40,11 +40,14 @@ def spell(seed: int):
 
 
 def make_cfg(name, seed=0, width="narrow", copies=True, moves=True, req=False, routes=("abs",), max_containers=3,
-             kind="ih5", attr_keys=1):
+             kind="ih5", attr_keys=1, bad=False):
     a, b, c, k = spell(seed)
     if width == "narrow":
         paths = [f"/{a}", f"/{a}/{a}", f"/{b}"]
         extra_dst = [f"/{c}", f"/{b}/{a}", f"/{a}/{c}"]
+    elif width == "deep":
+        paths = [f"/{a}", f"/{a}/{a}", f"/{a}/{a}/{b}"]
+        extra_dst = [f"/{c}"]
     else:
         paths = [f"/{a}", f"/{b}", f"/{a}/{a}", f"/{a}/{b}", f"/{b}/{a}", f"/{b}/{b}"]
         extra_dst = [f"/{c}", f"/{a}/{c}"]
@@ -55,6 +58,8 @@ def make_cfg(name, seed=0, width="narrow", copies=True, moves=True, req=False, r
         ops += [["set", p, r] for p in paths]
         ops += [["grp", p, r] for p in paths]
         ops += [["del", p, r] for p in paths]
+    if bad:
+        ops += [["setbad", p, "abs"] for p in paths]
     ops += [["sa", n, kk, "abs"] for n in nodes for kk in keys]
     ops += [["da", n, kk, "abs"] for n in nodes for kk in keys]
     if req:
